@@ -17,6 +17,7 @@ VERIF = os.path.dirname(os.path.dirname(os.path.abspath(__file__)))
 REPO = os.environ.get('SQV_REPO', '/repo')
 BUILD = os.path.join(VERIF, 'build')
 PLUGIN = os.path.join(BUILD, 'sqdump.so')
+CACHE = os.environ.get('SQV_CACHE') or BUILD  # extraction / exploration caches (variant runs in tools/ use their own)
 
 LIB_TUS = ['src/const.cpp', 'src/SUNalg.cpp', 'src/SQuIDS.cpp', 'src/MatrixExp.cpp']
 DRIVER_TUS = ['driver/instantiate.cpp', 'driver/cache_shared.cpp']
@@ -99,7 +100,7 @@ def extract(units=None):
     """returns {unit name: path of json}; units: subset of names ('SUNalg', 'instantiate', ...)"""
     ensure_plugin()
     key = _hash_inputs()
-    outdir = os.path.join(BUILD, 'ast', key)
+    outdir = os.path.join(CACHE, 'ast', key)
     os.makedirs(outdir, exist_ok=True)
     flags = build_flags()
     jobs = []
@@ -127,7 +128,7 @@ def extract(units=None):
         with ThreadPoolExecutor(max_workers=8) as ex:
             list(ex.map(work, jobs))
         # drop stale extraction directories (keep the two newest)
-        base = os.path.join(BUILD, 'ast')
+        base = os.path.join(CACHE, 'ast')
         dirs = sorted((d for d in os.listdir(base) if os.path.isdir(os.path.join(base, d))),
                       key=lambda d: os.path.getmtime(os.path.join(base, d)))
         for d in dirs[:-2]:
@@ -141,7 +142,7 @@ def extract_file(src, name, extra_flags=()):
     """extract one extra TU (fixtures); cached by content hash"""
     ensure_plugin()
     key = _hash_inputs([src])
-    outdir = os.path.join(BUILD, 'ast', 'fx')
+    outdir = os.path.join(CACHE, 'ast', 'fx')
     os.makedirs(outdir, exist_ok=True)
     out = os.path.join(outdir, '%s-%s.json' % (name, key))
     if not os.path.exists(out):
